@@ -88,7 +88,9 @@ def run_family(rep, tier, replay, prop, mix, probes, quick, thorough, by_kinds=F
             trans += r.generated
             if prop == "C03" and b == builds[0]:
                 predictions[p.key] = sc.design_prediction(p, cands, 8, 1)
-            hists, npairs = sc.gen_histories(p, cands, cfg["maxcmd"], cfg["maxbps"], cfg["nhist"], vlib.seed(), pmix,
+            # the long execution (recursion depth 100): fewer histories, TLC evaluates the scanners over 10^4 positions
+            nh = min(cfg["nhist"], 10) if src.stem in sc.PUPPETS_DEEP else cfg["nhist"]
+            hists, npairs = sc.gen_histories(p, cands, cfg["maxcmd"], cfg["maxbps"], nh, vlib.seed(), pmix,
                                              maxbk=cfg.get("maxbk", 3))
             if cfg.get("also_mixed") and pmix == mix:
                 h2, n2 = sc.gen_histories(p, cands, cfg["maxcmd"], cfg["maxbps"], cfg["also_mixed"], vlib.seed() + 1, "all",
